@@ -11,7 +11,8 @@ from engine import Case, enc, ShardStats, get_driver
 from model import ACCEPT, REJECT, UNSPEC, Opt, Schema, conv_int, conv_float, conv_bool, fmt_float, LONG_MAX, LONG_MIN
 
 PID = 'C04'
-SCH = Schema('N1', [Opt('int', 'i', '', 5), Opt('float', 'f', '', 2.5), Opt('bool', 'b', '', False)])
+SCH = Schema('N1', [Opt('int', 'i', '', 5), Opt('float', 'f', '', 2.5), Opt('bool', 'b', '', False),
+                    Opt('int', 'il', 'L', [b'1']), Opt('float', 'fl', 'L', [b'1.5']), Opt('bool', 'bl', 'L', [b'on'])])
 NUM = [b'0', b'1', b'7', b'8', b'9', b'a', b'f', b'x', b'b', b'e', b'.', b'-', b'+', b' ', b'g']
 BOOLA = [b't', b'r', b'u', b'e', b'y', b's', b'o', b'n', b'f', b'a', b'l', b'T', b'R', b'U', b'E', b'Y', b'S', b'O', b'N', b'F', b'A', b'L',
          b'1', b'0', b' ']
@@ -30,7 +31,8 @@ def fmt(kind, v):
 def build_case(tok, errno, kinds, routes):
     """-> (Case, plan) ; plan = list of (route, kindletter) in op order"""
     lines, plan = [], []
-    ctx = {'setopt': 'A', 'setmulti': 'B', 'parse': 'C'}
+    ctx = {'setopt': 'A', 'setmulti': 'B', 'parse': 'C', 'plist': 'D', 'mlist': 'E'}
+    good = {'i': b'1', 'f': b'1.5', 'b': b'on'}
     for r in routes:
         lines.append('init %s N1 0' % ctx[r])
     for r in routes:
@@ -40,9 +42,16 @@ def build_case(tok, errno, kinds, routes):
                 lines.append('setopt A/%s %s' % (k, enc(tok)))
             elif r == 'setmulti':
                 lines.append('setmulti B %s 1 %s' % (enc(k), enc(tok)))
+            elif r == 'plist':      # second element of a list in a file
+                lines.append('parse_buf D ' + enc(k.encode() + b'l = {' + good[k] + b', "' + tok + b'"}'))
+            elif r == 'mlist':      # second element of a bulk set
+                lines.append('setmulti E %s 2 %s %s' % (enc(k + 'l'), enc(good[k]), enc(tok)))
             else:
                 lines.append('parse_buf C ' + enc(k.encode() + b' = "' + tok + b'"'))
-            lines.append('get %s %s %s 0' % (ctx[r], enc(k), KINDS[k][0]))
+            if r in ('plist', 'mlist'):
+                lines.append('get %s %s %s 1' % (ctx[r], enc(k + 'l'), KINDS[k][0]))
+            else:
+                lines.append('get %s %s %s 0' % (ctx[r], enc(k), KINDS[k][0]))
             plan.append((r, k))
     return Case(lines), plan
 
@@ -79,7 +88,7 @@ def run(st, drv, items):
             ndiag = sum(1 for l in g if l.startswith('diag '))
             rl = [l for l in g if l.startswith('r ') and not l.startswith('r get')]
             rc = rl[0].split(' ')[2] if rl else '?'
-            ok = {'setopt': rc == '1', 'setmulti': rc == '0', 'parse': rc == '0'}[route]
+            ok = {'setopt': rc == '1', 'setmulti': rc == '0', 'parse': rc == '0', 'plist': rc == '0', 'mlist': rc == '0'}[route]
             got = g[-1][6:]
             st.outcome('%s %s %s' % (kind, ok, got if ok else ''))
             if verdict == UNSPEC:
@@ -156,7 +165,7 @@ def shard_boundary(sh):
     items = []
     for t in toks:
         for e in ERRNOS:
-            routes = ('setopt', 'setmulti', 'parse') if (b'"' not in t and b'\\' not in t and b'$' not in t and b'\0' not in t) else ('setopt', 'setmulti')
+            routes = ('setopt', 'setmulti', 'parse', 'plist', 'mlist') if (b'"' not in t and b'\\' not in t and b'$' not in t and b'\0' not in t) else ('setopt', 'setmulti', 'mlist')
             items.append((t, e, ('i', 'f', 'b'), routes))
     run(st, drv, items)
     return st.result([drv])
@@ -170,7 +179,7 @@ def main():
     engine.build(['asan'])
     quick = ck.tier == 'quick'
     dl = ck.deadline
-    all_routes = ('setopt', 'setmulti', 'parse')
+    all_routes = ('setopt', 'setmulti', 'parse', 'plist', 'mlist')
     bt = boundary_tokens()
     engine.phase(ck, 'boundary values, all routes, all errno', shard_boundary, [(list(c), dl) for c in engine.chunks(bt, 8)], tokens=len(bt))
     sh = [('tokens <= 4, int+float, 3 routes, 3 errno', NUM, 0, 0, (), ('i', 'f'), all_routes, ERRNOS, dl)]
